@@ -13,10 +13,12 @@ def ref_count_() -> Callable[[ConnectableObservable[_T]], Observable[_T]]:
     observable sequence.
     """
 
-    connectable_subscription: abc.DisposableBase | None = None
-    count = 0
-
     def ref_count(source: ConnectableObservable[_T]) -> Observable[_T]:
+        # The connection and the subscriber count belong to one application
+        # of the operator, not to the operator function itself.
+        connectable_subscription: abc.DisposableBase | None = None
+        count = 0
+
         def subscribe(
             observer: abc.ObserverBase[_T],
             scheduler: abc.SchedulerBase | None = None,
